@@ -129,7 +129,7 @@ class Run:
             if repo_label.match(lab):
                 continue
             n_ref, n = ref.get(key, 0), self.kinds.get(key, 0)
-            need = n_ref if n_ref < 30 else int(n_ref * 0.7)
+            need = (1 if n_ref else 0) if n_ref < 30 else int(n_ref * 0.5)      # a kind must not vanish; a populous one not halve
             pr = per_rule.setdefault(rule, {"missing": 0, "surplus": 0, "kinds": []})
             if n < need:
                 pr["missing"] += need - n
